@@ -100,12 +100,35 @@ def contexts(v):
     yield "nested-dict", {"outer": {"inner": v}}
     yield "item-assign", ("assign", v)
     yield "two-bindings", {"a": v, "b": v}
+    # re-assignment over a value that Python calls equal (True == 1, 0.0 == -0.0, 1 == 1.0) but that is another Nix value
+    for prev in lookalikes(v):
+        yield f"item-reassign-over-{prev!r}", ("reassign", prev, v)
+        yield f"item-reassign-over-parsed-{prev!r}", ("reassign-parsed", prev, v)
+
+
+def lookalikes(v):
+    if isinstance(v, list):
+        alt = [(not x) if isinstance(x, bool) else (bool(x) if x in (0, 1) and isinstance(x, int) else x) for x in v]
+        return [alt] if alt != [x for x in v] or any(type(a) is not type(b) for a, b in zip(alt, v)) else []
+    if isinstance(v, (dict, str)) or v is None:
+        return []
+    return [p for p in (0, 1, 0.0, -0.0, 1.0, -1, -1.0, True, False) if p == v and not same(p, v)]
 
 
 def render(ctx_kind, payload):
     from nix_manipulator.expressions.binding import Binding
     from nix_manipulator.expressions.set import AttributeSet
 
+    if isinstance(payload, tuple) and payload[0] == "reassign":
+        s = AttributeSet(values=[Binding(name="k", value=payload[1])])
+        s["k"] = payload[2]
+        return s.rebuild(), {"k": payload[2]}
+    if isinstance(payload, tuple) and payload[0] == "reassign-parsed":
+        from nix_manipulator import parse
+
+        doc = parse(AttributeSet(values=[Binding(name="k", value=payload[1])]).rebuild())
+        doc["k"] = payload[2]
+        return doc.rebuild(), {"k": payload[2]}
     if isinstance(payload, tuple):
         s = AttributeSet(values=[Binding(name="z", value=0)])
         s["k"] = payload[1]
